@@ -50,7 +50,8 @@ try:
     env = dict(os.environ, VERIF_REPO=wt)
     for prop in a.props.split(","):
         r = subprocess.run(["/verif/check", prop, "--tier", a.tier], env=env, capture_output=True, text=True)
-        tail = [l for l in (r.stdout + r.stderr).strip().split("\n") if l.strip()][-6:]
+        allout = [l for l in (r.stdout + r.stderr).strip().split("\n") if l.strip() and "Erfa" not in l and "warn(" not in l]
+        tail = [l for l in allout if l.startswith("violation in")][:2] + [l for l in allout if l.startswith(("VIOLATION", "HARNESS"))][:2] + allout[-1:]
         print("== %s exit=%d %s" % (prop, r.returncode, "CAUGHT" if r.returncode == 1 else ("MISSED" if r.returncode == 0 else "HARNESS-ERROR")))
         for l in tail:
             print("   " + l[:300])
